@@ -116,7 +116,11 @@ Definition lex : sparser (list token) :=
   pmap fst (preceded multispace0
               (repeat_till1 slen (terminated parse_token multispace0) eof)).
 
-(** the leading run of options of _parse *)
+(** the leading run of options of _parse; after each option an explicit and may be written,
+    provided something follows it:
+    (multispace0, opt(terminated(alt(("-and", "-a")), (multispace1, peek(any))))) *)
+Definition leading_and : sparser (option unit) :=
+  opt (terminated (alt [literal "-and"; literal "-a"]) (pair_ multispace1 (peek any))).
 Definition leading_options : sparser (list gopt) :=
   preceded multispace0
-    (repeat0 slen (terminated (terminated parse_global word_end) multispace0)).
+    (repeat0 slen (terminated (terminated parse_global word_end) (pair_ multispace0 leading_and))).
